@@ -754,3 +754,25 @@ func ruleR15_8(w *World, r *Report) {
 	}
 	r.Check(bad == "", "BeginTransaction/header numbered under the lock", u.Pos(bt.Pos()), "numbered and queued after the lock is taken", bad+" runs before the datatype lock is taken, i.e. also for a call that only joins the running transaction: that call consumes an identifier that is never delivered, the replica's sequence numbers get a hole and the server refuses every later push of this replica")
 }
+
+// reachableFromBlock: block `to` can be reached from block `from` (from itself included).
+func reachableFromBlock(from, to *ssa.BasicBlock) bool {
+	seen := map[*ssa.BasicBlock]bool{}
+	var walk func(b *ssa.BasicBlock) bool
+	walk = func(b *ssa.BasicBlock) bool {
+		if b == to {
+			return true
+		}
+		if seen[b] {
+			return false
+		}
+		seen[b] = true
+		for _, s := range b.Succs {
+			if walk(s) {
+				return true
+			}
+		}
+		return false
+	}
+	return walk(from)
+}
